@@ -104,7 +104,7 @@ class ConcFactory:
         return float(v)
 
     def bool(self, name):
-        v = self.env.get(name, False)
+        v = self.env.get(name, self.env.get("__default_bool__", False))
         self.used[name] = bool(v)
         return bool(v)
 
